@@ -57,6 +57,14 @@ def step (st : Option St) (t : List String) : Option St × String :=
       | "add", [h] => doAdd s (some (bytesOfHex h))
       | "adds", [h] => doAdd s (some (bytesOfHex h))
       | "addnull", [] => doAdd s none
+      | "addselfr", [k] =>
+        -- add_string( get_string( idx ) ): the source aliases the section's buffer; by value it is the string there
+        match s.idxs[parseNat k]? with
+        | some i =>
+          match StrSec.getString s.b (BitVec.ofNat 32 i) with
+          | .ok (b', r) => doAdd { s with b := b' } r
+          | .error f => (none, f.render)
+        | none => (st, "bad-op")
       | "get", [i] => doGet s (parseNat i)
       | "cget", [i] => doGet s (parseNat i)
       | "getr", [k] =>
